@@ -206,3 +206,89 @@ Example C04_boundary_nonvacuous :
   | Err _ => false
   end = true.
 Proof. vm_compute. reflexivity. Qed.
+
+(* Part 7: THE BISIMULATION, universally.  For every XY description over one auto-connected m x n array, every physical
+   network, every interface on any port (`on_port`) and EVERY target coordinate (cx, cy) -- inside the array, behind a
+   boundary port, or anywhere else: the outcome of the hardware walk over the emitted netlist (Hw.send: X-then-Y
+   comparison on the emitted, offset, width-limited identities; loop-back ban; Y-to-X turn ban; real wiring) is the
+   outcome of Check.ideal on the grid G the description denotes -- delivered to the same interface, blocked by the same
+   ban, or lost on an open port in both.  G enters through one decidable, LOCAL condition, `att_okb`: its attachments
+   are what the compiled routers carry on the ports that do not lead to a neighbouring router (evaluated by the harness
+   for the grid spec.xy_grid derives from the description alone).  This is the statement chk_C04 decides pair by pair
+   on every output; here it is a theorem for all pairs and all sizes at once. *)
+From FV Require Import XYSide.
+Theorem C04_hw_bisimulation :
+  forall d g c rd mm nn sp ri n nt xb yb ab ox oy G,
+    build d = Ok g -> compile d g = Ok c -> d_algo d = XY ->
+    d_rts d = [rd] -> rt_array rd = Some [mm; nn] -> rt_tree rd = None -> rt_auto rd = true ->
+    net_ok d nt -> gen_routing_info sp c = Ok ri -> emit c ri = Ok n -> chk_C05 n = [] ->
+    ri_xy ri = Some (xb, (yb, (ab, (ox, oy)))) ->
+    gr_m G = mm -> gr_n G = nn -> att_okb c mm nn G = true ->
+    forall s0 a b ks cx cy, In s0 (c_nis c) -> on_port g rd mm nn nt s0 a b ks ->
+      classify (t_out (send n nt (emit_ni d (ri_offset ri) s0) (HXY (cx - ox) (cy - oy) 0))) =
+      ideal (Z.to_nat (mm + nn + 4)) G a b ks cx cy.
+Proof.
+  intros d g c rd mm nn sp ri n nt xb yb ab ox oy G Hb Hc Ha Hrts Harr Htree Hauto Hnt Hri He Hchk Hxy Gm Gn Hatt.
+  exact (xy_bisim_send d g c rd mm nn Hb Hc Ha Hrts Harr Htree Hauto sp ri n nt Hnt Hri He
+           (fun l Hl _ => proj2 (chk_C05_sound n Hchk) l Hl) xb yb ab ox oy Hxy G Gm Gn Hatt).
+Qed.
+Print Assumptions C04_hw_bisimulation.
+
+(* non-vacuity: on the 2x2 mesh with a West memory row the grid the description denotes passes att_okb, and for EVERY
+   ordered pair of interfaces the hardware outcome equals the ideal one (some delivered, some lost on an open port) *)
+Example C04_bisimulation_nonvacuous :
+  let G := {| gr_m := 2; gr_n := 2;
+              gr_att := [("cluster_ni_0_0", ((0, 0), 4)); ("cluster_ni_0_1", ((0, 1), 4)); ("cluster_ni_1_0", ((1, 0), 4));
+                         ("cluster_ni_1_1", ((1, 1), 4)); ("hbm_ni_0", ((0, 0), 3)); ("hbm_ni_1", ((0, 1), 3))] |} in
+  match (do g <- build (ex_mesh XY); do c <- compile (ex_mesh XY) g; do ri <- gen_routing_info sp_nx c; do n <- emit c ri; Ok (c, (ri, n))) with
+  | Ok (c, (ri, n)) =>
+      att_okb c 2 2 G &&
+      forallb (fun s => forallb (fun t =>
+        match att_of G (cn_name s), ep_coord G (cn_name t) with
+        | Some ((i, j), p), Some (cx, cy) =>
+            xres_eqb (classify (t_out (send n Req (emit_ni (ex_mesh XY) (ri_offset ri) s)
+                                            (hdr_of_id n (Netlist.ni_id (emit_ni (ex_mesh XY) (ri_offset ri) t))))))
+                     (ideal 8 G i j p cx cy)
+        | _, _ => false
+        end) (c_nis c)) (c_nis c) &&
+      (* not all outcomes are deliveries to the addressee: a cluster of the other row ends at the wrong memory, and an
+         interface addressing itself is stopped by the loop-back ban -- in the netlist exactly as on the grid *)
+      existsb (fun s => existsb (fun t => match att_of G (cn_name s), ep_coord G (cn_name t) with
+                                          | Some ((i, j), p), Some (cx, cy) =>
+                                              match ideal 8 G i j p cx cy with XDel u => negb (str_eqb u (cn_name t)) | _ => false end
+                                          | _, _ => false end) (c_nis c)) (c_nis c) &&
+      existsb (fun s => match att_of G (cn_name s), ep_coord G (cn_name s) with
+                        | Some ((i, j), p), Some (cx, cy) => xres_eqb (ideal 8 G i j p cx cy) XLoop
+                        | _, _ => false end) (c_nis c)
+  | Err _ => false
+  end = true.
+Proof. vm_compute. reflexivity. Qed.
+
+(* Part 8: the same with every structural hypothesis in the executable form the harness evaluates (request `xy` of the
+   model binary: XYSide.xy_conditions on the description and the grid spec.xy_grid derives from it). *)
+Theorem C04_hw_bisimulation_decidable :
+  forall d g c sp ri n nt xb yb ab ox oy G,
+    build d = Ok g -> compile d g = Ok c ->
+    net_ok d nt -> gen_routing_info sp c = Ok ri -> emit c ri = Ok n -> chk_C05 n = [] ->
+    ri_xy ri = Some (xb, (yb, (ab, (ox, oy)))) ->
+    (exists bs, xy_conditions d G = Ok bs /\ forallb (fun b => b) bs = true) ->
+    forall s0 a b ks cx cy, In s0 (c_nis c) -> att_of G (cn_name s0) = Some ((a, b), ks) ->
+      classify (t_out (send n nt (emit_ni d (ri_offset ri) s0) (HXY (cx - ox) (cy - oy) 0))) =
+      ideal (Z.to_nat (gr_m G + gr_n G + 4)) G a b ks cx cy.
+Proof.
+  intros d g c sp ri n nt xb yb ab ox oy G Hb Hc Hnt Hri He Hchk Hxy (bs & Hq & Hall) s0 a b ks cx cy Hs0 Hatt.
+  unfold xy_conditions in Hq. rewrite Hb in Hq. cbn [bind] in Hq. rewrite Hc in Hq. cbn [bind] in Hq.
+  destruct (d_rts d) as [|rd [|? ?]] eqn:Hrts; inversion Hq; subst bs; clear Hq; try discriminate Hall.
+  cbn [forallb] in Hall. repeat (apply andb_true_iff in Hall; destruct Hall as (? & Hall)).
+  destruct (d_algo d) eqn:Ha; try discriminate.
+  destruct (rt_array rd) as [[|m [|n0 [|? ?]]]|] eqn:Harr; try discriminate.
+  destruct (rt_tree rd) eqn:Htree; try discriminate.
+  match goal with X : (m =? gr_m G) && (n0 =? gr_n G) && rt_auto rd = true |- _ =>
+    apply andb_true_iff in X; destruct X as (X & Hauto); apply andb_true_iff in X; destruct X as (Em & En) end.
+  assert (m = gr_m G) by lia. assert (n0 = gr_n G) by lia. subst m n0.
+  match goal with X : forallb _ (c_nis c) = true |- _ => rewrite forallb_forall in X; pose proof (X s0 Hs0) as Hp end.
+  rewrite Hatt in Hp.
+  exact (C04_hw_bisimulation d g c rd (gr_m G) (gr_n G) sp ri n nt xb yb ab ox oy G Hb Hc Ha Hrts Harr Htree Hauto Hnt Hri He Hchk Hxy
+           eq_refl eq_refl ltac:(assumption) s0 a b ks cx cy Hs0 (on_portb_ok g rd (gr_m G) (gr_n G) nt s0 a b ks Hp)).
+Qed.
+Print Assumptions C04_hw_bisimulation_decidable.
